@@ -253,7 +253,7 @@ def run(res, proof):
     gc.unfreeze()
     import random as _r
     from .pyreaderfn_stream import stream_read_reaction
-    stream_read_reaction(res, proof, _r.Random(res.seed * 5915587 + 1416), res.tier == 'quick')     # read_reaction as translated from the working tree
+    core.run_stream(stream_read_reaction, res, proof, _r.Random(res.seed * 5915587 + 1416), res.tier == 'quick')     # read_reaction as translated from the working tree
     for (lab, txt) in labels[::max(1, len(labels) // 8)]:
         res.sample({'label': lab, 'text': txt})
     res.rule = ('%d generated valid systems, each with single-fault corruptions of 15 kinds (dropped / undeclared object, conflicting '
